@@ -28,6 +28,8 @@ ASSUMPTIONS = ["X and '-' are one class when comparing values (a raw copy may ke
 REACH = {'logic.mv_ops': ('logic.py', 123, 215), 'logic.bp_ops': ('logic.py', 283, 388)}
 
 OPS = {'and': R.v_and, 'or': R.v_or, 'xor': R.v_xor}
+# codes: 0 '0', 1 'X', 2 '-', 3 '1', 4 'P', 5 'R', 6 'F', 7 'N'
+SUB_ALPHABETS = ([0, 3], [0, 3, 4, 5, 6, 7], [0, 3, 5, 6], [5, 6], [4, 7], [0, 1, 3], [0, 2, 3], [0, 4, 5, 6, 7], [3, 4, 5, 6, 7], [0], [3], [1, 2])
 
 
 def plan(tier, seed):
@@ -68,7 +70,7 @@ def fold_mv(lg, name, cols):
     return acc
 
 
-def check_tuples(ctx, vals, k, planes, rng, lane_pad):
+def check_tuples(ctx, vals, k, planes, rng, lane_pad, tag=None):
     """vals: alphabet (list of codes); all tuples of length k placed on permuted lanes with random padding."""
     lg = _logic()
     tuples = list(itertools.product(vals, repeat=k))
@@ -78,7 +80,7 @@ def check_tuples(ctx, vals, k, planes, rng, lane_pad):
     cols = [np.array([t[i] for t in lanes], dtype=np.uint8) for i in range(k)]
     bps = [to_bp(c[np.newaxis, :], planes) for c in cols]     # (1, planes, nb)
     pre = 'bp8v_' if planes == 3 else 'bp4v_'
-    tag = '' if planes == 3 else '4'
+    tag = ('' if planes == 3 else '4') + (tag or '')
     results = {}
     case0 = {'kind': 'tuples', 'k': k, 'planes': planes}
 
@@ -203,9 +205,12 @@ def rand_shapes(ctx, rng, nrng, n):
         def bshape():
             return tuple(1 if rng.random() < 0.3 else s for s in shape)
         s1, s2 = bshape(), bshape()
-        x1 = nrng.integers(0, 8, size=s1, dtype=np.uint8)
-        x2 = nrng.integers(0, 8, size=s2, dtype=np.uint8)
+        alpha_mv = np.array(rng.choice(SUB_ALPHABETS) if rng.random() < 0.4 else list(range(8)), dtype=np.uint8)
+        x1 = alpha_mv[nrng.integers(0, len(alpha_mv), size=s1)]
+        x2 = alpha_mv[nrng.integers(0, len(alpha_mv), size=s2)]
         case.update(s1=list(s1), s2=list(s2), x1=x1.tolist(), x2=x2.tolist())
+        if rng.random() < 0.3:
+            x1, x2 = np.asfortranarray(x1), np.asfortranarray(x2)
         with ctx.guard('operator-raises', case):
             if op == 'not':
                 got = lg.mv_not(x1)
@@ -225,11 +230,16 @@ def rand_shapes(ctx, rng, nrng, n):
         k = 1 if op == 'not' else rng.randint(2, 4)
         planes = rng.choice([2, 3])
         alpha = 8 if planes == 3 else 4
-        xs = [nrng.integers(0, alpha, size=lead + (lanes,), dtype=np.uint8) for _ in range(k)]
+        sub = np.array(rng.choice(SUB_ALPHABETS) if (planes == 3 and rng.random() < 0.4) else list(range(alpha)), dtype=np.uint8)
+        xs = [sub[nrng.integers(0, len(sub), size=lead + (lanes,))] for _ in range(k)]
         case2 = {'kind': 'bpshape', 'op': op, 'planes': planes, 'lead': list(lead), 'lanes': lanes, 'xs': [x.tolist() for x in xs]}
         with ctx.guard('operator-raises', case2):
             bps = [to_bp(x, planes) for x in xs]
-            o = np.full(lead + (planes, (lanes + 7) // 8), 0x5A, dtype=np.uint8)
+            lay = rng.choice(['c', 'c', 'strided', 'fortran'])
+            o = make_out(lead + (planes, (lanes + 7) // 8), 0x5A, lay)
+            if lay != 'c':
+                bps = [np.asfortranarray(x) if rng.random() < 0.5 else x for x in bps]
+                ctx.count('bp_noncontiguous')
             getattr(lg, ('bp8v_' if planes == 3 else 'bp4v_') + op)(o, *bps)
             got = from_bp(o, lanes)
             f = R.v_not if op == 'not' else OPS[op]
@@ -241,6 +251,22 @@ def rand_shapes(ctx, rng, nrng, n):
         ctx.count('rand_shapes', 2)
         ctx.case(case2, any(int(v) not in (0, 3) for x in xs for v in x.flat), key=case2)
         ctx.sample({'op': op, 'mv_shapes': [list(s1), list(s2)], 'bp': {'planes': planes, 'lead': list(lead), 'lanes': lanes, 'k': k}})
+
+
+def make_out(shape, init, layout):
+    """a caller-supplied result array of the given shape: C-contiguous, or a view that is not (transposed, strided, one plane of a larger buffer, Fortran order)"""
+    shape = tuple(shape)
+    if layout == 'transposed' and len(shape) >= 2:
+        return np.full(shape[::-1], init, dtype=np.uint8).T
+    if layout == 'strided' and len(shape) >= 1:
+        big = np.full(shape[:-1] + (shape[-1] * 2 + 1,), init, dtype=np.uint8)
+        return big[..., 1::2]
+    if layout == 'plane' and len(shape) >= 1:
+        big = np.full(shape[:-1] + (3,) + shape[-1:], init, dtype=np.uint8)
+        return big[..., 1, :] if len(shape) >= 1 else big
+    if layout == 'fortran' and len(shape) >= 2:
+        return np.full(shape, init, dtype=np.uint8, order='F')
+    return np.full(shape, init, dtype=np.uint8)
 
 
 def out_cases(ctx, rng, nrng, n):
@@ -255,8 +281,10 @@ def out_cases(ctx, rng, nrng, n):
             x1 = np.zeros(shape, dtype=np.uint8) if op != 'not' else np.full(shape, R.ONE, dtype=np.uint8)
             x2 = np.zeros(shape, dtype=np.uint8)
         init = rng.choice([0, 0, 7, 0x55])
-        o = np.full(shape, init, dtype=np.uint8)
-        case = {'kind': 'out', 'op': op, 'shape': list(shape), 'x1': x1.tolist(), 'x2': x2.tolist(), 'init': init}
+        layout = rng.choice(['c', 'c', 'transposed', 'strided', 'plane', 'fortran']) if i > 12 else 'c'
+        o = make_out(shape, init, layout)
+        case = {'kind': 'out', 'op': op, 'shape': list(shape), 'x1': x1.tolist(), 'x2': x2.tolist(), 'init': init, 'layout': layout}
+        ctx.count('out_layout/' + layout)
         f = R.v_not if op == 'not' else OPS[op]
         exp = np.vectorize(f, otypes=[np.uint8])(x1) if op == 'not' else np.vectorize(f, otypes=[np.uint8])(x1, x2)
         exp = np.asarray(exp, dtype=np.uint8).reshape(shape)
@@ -284,6 +312,13 @@ def run(spec, ctx):
         pad = rng.randint(1, 13)
         check_tuples(ctx, list(range(8)), k, 3, rng, pad)
         check_tuples(ctx, [0, 1, 2, 3], k, 2, rng, pad)
+        # whole arrays drawn from a sub-alphabet (no unknown anywhere, Boolean only, transitions only, ...): an implementation may
+        # take a different path when some class of values is absent from the entire array
+        for alpha in SUB_ALPHABETS:
+            check_tuples(ctx, alpha, k, 3, rng, rng.randint(0, 5), tag='sub')
+            ctx.count('sub_alphabet_arrays')
+        for alpha in ([0, 3], [0, 1, 3], [0, 2, 3], [1, 2]):
+            check_tuples(ctx, alpha, k, 2, rng, rng.randint(0, 5), tag='sub')
         if k == 2:
             ctx.sample({'k': 2, 'op': 'and', 'tuple': 'RF', 'expected': 'P'})
     elif spec['kind'] == 'rand':
@@ -304,7 +339,7 @@ def replay(case, ctx):
     elif kind == 'out':
         x1 = np.array(case['x1'], dtype=np.uint8).reshape(case['shape'])
         x2 = np.array(case['x2'], dtype=np.uint8).reshape(case['shape'])
-        o = np.full(case['shape'], case['init'], dtype=np.uint8)
+        o = make_out(case['shape'], case['init'], case.get('layout', 'c'))
         op = case['op']
         f = R.v_not if op == 'not' else OPS[op]
         exp = np.vectorize(f, otypes=[np.uint8])(x1) if op == 'not' else np.vectorize(f, otypes=[np.uint8])(x1, x2)
